@@ -146,6 +146,9 @@ impl Model for C03Model {
             Op::ForceRenewRoas,
             Op::AspaSet { ca: c(), customer: 65000, providers: vec![65001] },
             Op::AspaDel { ca: c(), customer: 65000 },
+            Op::AspaSwap { ca: c(), remove: 65000, customer: 65001, providers: vec![65002] },
+            // all authorisations of an aggregating class removed at once
+            Op::Roa { ca: c(), add: vec![], del: vec![c01::ROA_B.into(), c01::ROA_C.into(), c01::ROA_D.into()] },
             Op::BgpsecAdd { ca: c(), asn: 65000, csr: 0 },
             Op::BgpsecDel { ca: c(), asn: 65000, csr: 0 },
             Op::Entitle { parent: p(), child: c(), res: r3("AS65000", "10.0.0.0/16", "") },
